@@ -186,7 +186,7 @@ func main() {
 			finish()
 			return
 		}
-		handle(rh, !rh.Ent, nil)
+		handle(rh, true, nil)
 		finish()
 		return
 	}
@@ -227,7 +227,7 @@ func main() {
 			run.Step(op)
 			h.Ops = append(h.Ops, op)
 		}
-		handle(h, !h.Ent, run) // enterprise worlds are outside the model: oracle only
+		handle(h, true, run)
 	}
 	if os.Getenv("STORAGE_DEBUG") != "" {
 		for k, v := range rep.Histogram {
